@@ -142,8 +142,10 @@ func checkC02Case(c *Case, rep *core.Report) {
 	// the same reads on a Reader that has already served Info(): asking for the summary first must not
 	// change what a read returns (in particular not turn a fall-back scan into an empty one)
 	for k, v := range []readVariant{{"Info() followed by Messages()", nil, mcap.FileOrder}, {"Info() followed by Messages(UsingIndex(false))", []mcap.ReadOpt{mcap.UsingIndex(false)}, mcap.FileOrder},
-		{"Messages(UsingIndex(false)), then Info(), then the iteration", []mcap.ReadOpt{mcap.UsingIndex(false)}, mcap.FileOrder}} {
-		ir := drive.ReadMessages(bytes.NewReader(data), drive.IterOpts{Opts: v.opts, InfoFirst: k < 2, WantInfo: k == 2})
+		{"Messages(UsingIndex(false)), then Info(), then the iteration", []mcap.ReadOpt{mcap.UsingIndex(false)}, mcap.FileOrder},
+		{"Info() and GetMetadata() of every indexed metadata record, followed by Messages()", nil, mcap.FileOrder},
+		{"Messages(UsingIndex(false)), then a second Messages() whose iterator is never read, then the iteration", []mcap.ReadOpt{mcap.UsingIndex(false)}, mcap.FileOrder}} {
+		ir := drive.ReadMessages(bytes.NewReader(data), drive.IterOpts{Opts: v.opts, InfoFirst: k < 2 || k == 3, WantInfo: k == 2, MetadataFirst: k == 3, SecondIterator: k == 4})
 		rep.Count("reads_after_info", 1)
 		if ir.Panic != nil {
 			rep.Violate("indexed-panic", fmt.Sprintf("%s: %s panicked: %v", c.Describe(), v.name, ir.Panic), c.Witness())
@@ -161,6 +163,30 @@ func checkC02Case(c *Case, rep *core.Report) {
 			rep.Violate("silent-partial-read-after-info", fmt.Sprintf("%s: %s returned %d messages without error, the sequential scan of a fresh Reader returns %d: %s", c.Describe(), v.name, len(ir.Triples), len(scan.Triples),
 				firstDiff(scanKeys, tripleKeys(ir.Triples))), c.Witness())
 			return
+		}
+	}
+	// a topic selection on a file whose summary does not repeat the channel records: the index-based reader
+	// cannot tell which channels carry the topic, so the read has to fall back, fail - or be complete
+	if !indexed && c.K.Chunked && !c.K.SkipChunkIndex && c.K.SkipRepeatedChannelInfos && len(scan.Triples) > 0 {
+		topic := ""
+		for k := range c.W.Ops {
+			if ch := c.W.Ops[k].Channel; ch != nil && ch.ID == scan.Triples[0].ChanID {
+				topic = ch.Topic
+			}
+		}
+		opts := []mcap.ReadOpt{mcap.WithTopics([]string{topic})}
+		want := drive.ReadMessages(bytes.NewReader(data), drive.IterOpts{Opts: append([]mcap.ReadOpt{mcap.UsingIndex(false)}, opts...)})
+		ir := drive.ReadMessages(bytes.NewReader(data), drive.IterOpts{Opts: opts})
+		rep.Count("topic_reads_without_summary_channels", 1)
+		if want.Failed() == nil && ir.Panic == nil && ir.Failed() == nil && !eqStrings(tripleKeys(want.Triples), tripleKeys(ir.Triples)) {
+			kind := "silent-partial-topic-read-without-summary-channels"
+			if len(ir.Triples) == 0 {
+				kind = "silent-empty-topic-read-without-summary-channels"
+			}
+			rep.Violate(kind, fmt.Sprintf("%s: Messages(WithTopics(%q)) returned %d messages without error, the scan with the same selection returns %d", c.Describe(), topic, len(ir.Triples), len(want.Triples)), c.Witness())
+			if !rep.IsKnown(kind) {
+				return
+			}
 		}
 	}
 	// two iterators of ONE Reader consumed alternately, with random access in between: each must still
